@@ -35,11 +35,11 @@ def gen_case(rng, tier, idx):
     if rng.random() < 0.3:
         spec = gen_mdp_spec(rng, proper=True, discounts=(1.0,), rewards=big or rng.choice((None, (-2.0, -1.0, -1.0, 0.0, 1.0, 0.5))))
     else:
-        spec = gen_mdp_spec(rng, proper=rng.random() < 0.5, discounts=(0.5, 0.8, 0.9, 0.95, 0.99), rewards=big)
+        spec = gen_mdp_spec(rng, proper=rng.random() < 0.5, discounts=(0.5, 0.8, 0.9, 0.95, 0.99), rewards=big, uniform_actions=rng.random() < 0.25)
     h = gen_heuristic(rng)
     h['at_abs'] = abs(h['at_abs'])       # C03's heuristics never under-estimate, absorbing states (worth 0) included
     cfg = dict(heur=h, rao=rng.random() < 0.7, rno=rng.random() < 0.7, seed=rng.choice((0, 1, 2, 77)),
-               reuse=rng.randrange(1000) if rng.random() < 0.15 else None)
+               reuse=rng.randrange(1000) if rng.random() < 0.15 else None, alias=rng.choice(('fresh', 'fresh', 'cached', 'shared')))
     plain = idx % 4 == 0
     sched = gen_sched(rng, ('P',) if plain else ('P', 'X', 'X'), budget_choices=(None,), coop=False, cap=200000)
     return dict(spec=spec, cfg=cfg, sched=sched)
@@ -59,7 +59,7 @@ def execute(case, script=None):
 
 
 def _execute(lao, view, cfg, ctx, sched):
-    mdp = make_mdp(view, ctx)
+    mdp = make_mdp(view, ctx, alias=cfg.get('alias', 'fresh'))
     sk, ak, sid, aid = view.sk, view.ak, view.sid, view.aid
     Vs, Qs = optimal_values(view)
     htab = build_heuristic(cfg['heur'], view, Vs)
@@ -113,7 +113,7 @@ def _execute(lao, view, cfg, ctx, sched):
                 sched.fire('F5_object_reuse')
                 ctx.probe('planner_reused')
                 state['main'] = False
-                planner.plan_on(make_mdp(MDPView(sib), ctx))
+                planner.plan_on(make_mdp(MDPView(sib), ctx, alias=cfg.get('alias', 'fresh')))
                 state['main'] = True
             r = planner.plan_on(mdp)
         except (Violation, Inconclusive):
